@@ -1,7 +1,10 @@
 """Bounded contract checks (never counted as proved) for
 
-  C10  statement dataflow analyses (Statements.full_expression / dependencies / find_assignment /
-       find_assignment_index / reassign / remove_symbol_definitions / subs)          -> bounded_dataflow
+  C10  statement dataflow analyses (Statements.full_expression / dependencies / direct_dependencies /
+       find_assignment / find_assignment_index / reassign / remove_symbol_definitions / subs with symbol,
+       amount-function and compound-expression keys; remove_unused_parameters_and_rvs on the programs
+       with an ODE system, whose dose, rate, input, lag time or bioavailability may be a symbol defined
+       by an earlier statement)                                                       -> bounded_dataflow
   C05  compartmental system graph <-> differential equations                         -> bounded_compartmental
 
 The contracts are taken from the property statements; the oracles are the small reference
